@@ -3,16 +3,12 @@ use candid::TypeEnv;
 use std::str::FromStr;
 fn main() {
     let src = r#"
-// doc for A */ `x` ${y}
-type A = record { "a b" : nat; 5 : opt A; /* c */ "query" : vec nat8; "it's" : B };
-// doc B
+type A = record { "a b" : nat; 5 : opt A; "query" : vec nat8; "it's" : B };
 type B = variant { ok; err : text; "new" : record { nat; text } };
 type F = func (nat, B) -> (opt A) query;
 type S = service { get : F; "set val" : (A) -> () oneway };
-// service doc
 service : (nat, opt B) -> {
-  // method doc */
-  m1 : (A, B) -> (F, S) composite_query;
+  m1 : (A, B, record { x : nat; y : record { z : B } }) -> (F, S, vec record { nat; text }) composite_query;
   "return" : (principal, blob, reserved, empty, float32) -> ();
 }
 "#;
@@ -21,15 +17,7 @@ service : (nat, opt B) -> {
     let actor = check_prog(&mut env, &ast).unwrap();
     let ast2: IDLProg = src.parse().unwrap();
     let prog = IDLMergedProg::new(ast2);
-    let which = std::env::args().nth(1).unwrap_or_default();
-    match which.as_str() {
-        "ts" => println!("{}", candid_parser::bindings::typescript::compile(&env, &actor, &prog)),
-        "mo" => println!("{}", candid_parser::bindings::motoko::compile(&env, &actor, &prog)),
-        "rs" => {
-            let cfg = candid_parser::bindings::rust::Config::new(candid_parser::configs::Configs::from_str("").unwrap());
-            let (s, unused) = candid_parser::bindings::rust::compile(&cfg, &env, &actor, &prog, Default::default());
-            println!("{s}\n// unused: {unused:?}");
-        }
-        _ => println!("{}", candid_parser::bindings::javascript::compile(&env, &actor)),
-    }
+    let cfg = candid_parser::bindings::rust::Config::new(candid_parser::configs::Configs::from_str("").unwrap());
+    let (o, unused) = candid_parser::bindings::rust::emit_bindgen(&cfg, &env, &actor, &prog);
+    println!("{}\nMETHODS {:#?}\nINIT {:?}\n// unused: {unused:?}", o.type_defs, o.methods, o.init_args);
 }
